@@ -285,18 +285,23 @@ func (r *Replica) Start() error {
 // Stop gracefully stops the replication process
 func (r *Replica) Stop() error {
 	r.mu.Lock()
-	defer r.mu.Unlock()
-
 	if r.shutdown {
+		r.mu.Unlock()
 		return nil // Already shut down
 	}
 
 	// Signal shutdown
 	r.shutdown = true
 	r.cancel()
+	r.mu.Unlock()
 
-	// Wait for all goroutines to finish
+	// Wait for all goroutines to finish. The mutex must not be held here:
+	// the replication loop takes it (connect, error recovery) and would
+	// never finish
 	r.wg.Wait()
+
+	r.mu.Lock()
+	defer r.mu.Unlock()
 
 	// Close connection and reset clients
 	if r.conn != nil {
